@@ -62,6 +62,7 @@ func (w *Watcher) Stop() {
 // ConfigurationWatcher configuration store watcher
 type ConfigurationWatcher struct {
 	configurations configurationstore.Store
+	proposals      proposalstore.Store
 	cancel         context.CancelFunc
 	mu             sync.Mutex
 }
@@ -91,6 +92,28 @@ func (w *ConfigurationWatcher) Start(ch chan<- controller.ID) error {
 			// the first proposal that was waiting for this configuration change (mastership, synchronization) even when
 			// neither Index nor Applied.Index name it (nothing applied yet, or Index lowered by a rollback).
 			ch <- controller.NewID(proposalstore.NewID(event.Configuration.TargetID, event.Configuration.Status.Proposed.Index))
+			// The first proposal of the target that has not been applied yet: it is the one that waits for the
+			// configuration to get a master and to be synchronized. The proposals behind it may all be committed without
+			// an apply phase (their transactions wait for its serializable transaction), and such a proposal hands over to
+			// its successor, not to its predecessor - so none of the ids above leads to it.
+			if w.proposals != nil {
+				applied := event.Configuration.Status.Applied.Index
+				index := event.Configuration.Status.Proposed.Index
+				for index > applied {
+					proposal, err := w.proposals.Get(ctx, proposalstore.NewID(event.Configuration.TargetID, index))
+					if err != nil {
+						break
+					}
+					if proposal.Status.PrevIndex <= applied {
+						ch <- controller.NewID(proposal.ID)
+						break
+					}
+					if proposal.Status.PrevIndex >= index {
+						break
+					}
+					index = proposal.Status.PrevIndex
+				}
+			}
 		}
 	}()
 	return nil
